@@ -19,6 +19,7 @@ class Global:
         self.group = kw.get("group")
         self.binding = kw.get("binding")
         self.len_override = kw.get("len_override")  # name of an override used as array length
+        self.decl_text = kw.get("decl_text")  # verbatim declaration (types the model cannot print)
 
     def is_resource(self):
         return self.kind in ("buffer", "texture", "sampler")
@@ -44,6 +45,8 @@ class Global:
         return W.wgsl(self.ty)
 
     def decl(self, idx_suffix=False):
+        if self.decl_text:
+            return self.decl_text
         at = ""
         if self.is_resource():
             gs, bs = str(self.group), str(self.binding)
@@ -120,22 +123,33 @@ class ShaderSpec:
     def wgsl(self):
         L = list(self.header)
         L += [d for d in self.extra_decls if d.startswith("alias ")]
-        for c in self.consts:
-            L.append(c["decl"])
+        decls = [c["decl"] for c in self.consts]
+        if getattr(self, "consts_one_line", False) and decls:
+            # minified style: several declarations on one source line
+            L.append(" ".join(decls))
+        else:
+            L += decls
         for o in self.overrides:
             at = "@id(%d) " % o["id"] if o.get("id") is not None else ""
             d = " = %s" % o["default"] if o.get("default") is not None else ""
             L.append("%soverride %s: %s%s;" % (at, o["name"], o.get("decl_ty") or o["ty"], d))
         for sd in self.structs.values():
-            L.append(sd.wgsl())
-        for g in self.globals:
-            L.append(g.decl())
-        L += [d for d in self.extra_decls if not d.startswith("alias ")]
-        L.append("fn ident_f(x: f32) -> f32 { return x; }")
+            if not getattr(sd, "predeclared", False):
+                L.append(sd.wgsl())
+        G = [g.decl() for g in self.globals]
+        G += [d for d in self.extra_decls if not d.startswith("alias ")]
+        Fn = ["fn ident_f(x: f32) -> f32 { return x; }"]
         for f in self.funcs:
-            L.append(self._func_text(f))
-        for e in self.entries:
-            L.append(self._entry_text(e))
+            Fn.append(self._func_text(f))
+        En = [self._entry_text(e) for e in self.entries]
+        order = getattr(self, "decl_order", "default")
+        if order == "functions_first":
+            # module-scope declarations may come in any order: code above the variables it uses
+            L += Fn + En + G
+        elif order == "entries_first":
+            L += En + G + Fn
+        else:
+            L += G + Fn + En
         text = "\n".join(L) + "\n"
         nl = getattr(self, "line_ending", "\n")
         if nl != "\n":
@@ -341,7 +355,8 @@ def frag_targets(spec, e):
 
 S_SITES = ["top", "block", "if_accept", "if_reject", "else_if", "loop_body", "continuing",
            "for_body", "for_update", "while_body", "switch_case", "switch_default",
-           "switch_multi", "if_false", "else_of_true", "if_const_expr_false", "while_false"]
+           "switch_multi", "if_false", "else_of_true", "if_const_expr_false", "while_false",
+           "else_if_chain_130", "nested_for_6"]
 E_SITES = ["let_init", "var_init", "if_cond", "while_cond", "break_if", "for_init", "for_cond",
            "switch_sel", "call_arg", "return_expr", "nested_expr"]
 
@@ -366,6 +381,14 @@ def scaffold(site, E, S_, n):
         return "if (1 > 2) { if (false) { %s } }" % S_
     if site == "while_false":
         return "while (false) { %s }" % S_
+    if site == "else_if_chain_130":
+        # one source brace level, 130 IR nesting levels (each `else if` nests in the reject block)
+        arms = " else ".join("if (acc < %d.5) { acc = acc + 1.0; }" % -(k + 2) for k in range(130))
+        return "%s else { %s }" % (arms, S_)
+    if site == "nested_for_6":
+        open_ = "".join("for (var n%d_%d = 0; n%d_%d < 1; n%d_%d++) { " % (n, k, n, k, n, k)
+                        for k in range(6))
+        return open_ + S_ + " }" * 6
     if site == "loop_body":
         return "loop { %s break; }" % S_
     if site == "continuing":
